@@ -67,7 +67,12 @@ impl ServerState {
   /// - Global context updated
   /// - Dependency graph updated
   /// - recheck_set is the conservative estimate of moduled need to recheck
-  fn recheck(&mut self, mut error_set: ErrorSet, recheck_set: &HashSet<ModuleReference>) {
+  fn recheck(
+    &mut self,
+    mut error_set: ErrorSet,
+    recheck_set: &HashSet<ModuleReference>,
+    reparsed_set: &HashSet<ModuleReference>,
+  ) {
     // Type Checking (parallel)
     let parsed_modules = &self.parsed_modules;
     let global_cx = &self.global_cx;
@@ -90,8 +95,14 @@ impl ServerState {
     // Collating Errors
     let mut grouped_errors = error_set.group_errors();
     for rechecked_module in recheck_set {
-      if !grouped_errors.contains_key(rechecked_module) {
-        grouped_errors.insert(*rechecked_module, Vec::new());
+      let errors = grouped_errors.entry(*rechecked_module).or_default();
+      if !reparsed_set.contains(rechecked_module)
+        && let Some(old_errors) = self.errors.remove(rechecked_module)
+      {
+        // A dependent that is only rechecked was not parsed again: its syntax errors are still
+        // the stored ones and must not be replaced by the type errors alone.
+        errors.extend(old_errors.into_iter().filter(|e| e.is_syntax_error()));
+        errors.sort();
       }
     }
     for (mod_ref, mod_scoped_errors) in grouped_errors {
@@ -140,8 +151,8 @@ impl ServerState {
       self.parsed_modules.insert(mod_ref, parsed);
     }
     self.dep_graph = DependencyGraph::new(&self.parsed_modules);
-    let recheck_set = self.dep_graph.affected_set(initial_update_set);
-    self.recheck(error_set, &recheck_set);
+    let recheck_set = self.dep_graph.affected_set(initial_update_set.clone());
+    self.recheck(error_set, &recheck_set, &initial_update_set);
   }
 
   pub fn rename_module(&mut self, renames: Vec<(ModuleReference, ModuleReference)>) {
@@ -149,8 +160,10 @@ impl ServerState {
     let recheck_set = self
       .dep_graph
       .affected_set(renames.iter().flat_map(|(a, b)| vec![*a, *b].into_iter()).collect());
+    let mut reparsed_set = HashSet::new();
     for (old_mod_ref, new_mod_ref) in renames {
       if let Some(source) = self.string_sources.remove(&old_mod_ref) {
+        reparsed_set.insert(new_mod_ref);
         self.parsed_modules.remove(&old_mod_ref).unwrap();
         let parsed = samlang_parser::parse_source_module_from_text(
           &source,
@@ -168,7 +181,7 @@ impl ServerState {
       self.checked_modules.remove(&old_mod_ref);
     }
     self.dep_graph = DependencyGraph::new(&self.parsed_modules);
-    self.recheck(error_set, &recheck_set);
+    self.recheck(error_set, &recheck_set, &reparsed_set);
   }
 
   pub fn remove(&mut self, module_references: &[ModuleReference]) {
@@ -180,7 +193,7 @@ impl ServerState {
       self.global_cx.remove(mod_ref);
     }
     self.dep_graph = DependencyGraph::new(&self.parsed_modules);
-    self.recheck(ErrorSet::new(), &recheck_set);
+    self.recheck(ErrorSet::new(), &recheck_set, &HashSet::new());
   }
 }
 
